@@ -161,7 +161,8 @@ struct RunResult
 
 RunResult
 run_process(const Problem& pr, RunCfg rcg, const std::string& dir, shared_ptr<target_type> initial, const std::vector<sim::Fault>& faults,
-            shared_ptr<rc::objective_type> reuse_objective = shared_ptr<rc::objective_type>())
+            shared_ptr<rc::objective_type> reuse_objective = shared_ptr<rc::objective_type>(),
+            shared_ptr<ObservedRecon>* recon_io = nullptr)
 {
   RunResult rr;
   rc::make_dir(dir);
@@ -175,7 +176,27 @@ run_process(const Problem& pr, RunCfg rcg, const std::string& dir, shared_ptr<ta
           shared_ptr<GeneralisedPrior<target_type>> prior(new QuadraticPrior<float>(false, (float)rcg.beta));
           obj->set_prior_sptr(prior);
         }
-      shared_ptr<ObservedRecon> recon = make_recon(pr, obj, rcg, dir, &rr.obs);
+      shared_ptr<ObservedRecon> recon;
+      if (recon_io && *recon_io)
+        {
+          // the same reconstruction object continues (interactive session): only what a continuation changes is set again
+          recon = *recon_io;
+          recon->obs = &rr.obs;
+          recon->set_num_subiterations(rcg.num_subiters);
+          recon->set_start_subiteration_num(rcg.start_subiter);
+          recon->set_save_interval(std::min(rcg.save_interval, rcg.num_subiters));
+#ifdef RECON_OSSPS
+          recon->configure(rcg.alpha, rcg.gamma, rcg.upper_bound, rcg.enforce_pos, std::string());
+#else
+          recon->set_enforce_initial_positivity(rcg.enforce_pos);
+#endif
+        }
+      else
+        {
+          recon = make_recon(pr, obj, rcg, dir, &rr.obs);
+          if (recon_io)
+            *recon_io = recon;
+        }
       if (recon->set_up(target) != Succeeded::yes)
         {
           rr.error = "set_up failed";
@@ -392,7 +413,7 @@ run(const Plan& p, sim::Result& res)
       sim::probe("too_short_for_restart");
       return;
     }
-  if (op.kind == "resume_fresh" || op.kind == "resume_default" || op.kind == "resume_reuse")
+  if (op.kind == "resume_fresh" || op.kind == "resume_default" || op.kind == "resume_reuse" || op.kind == "resume_same")
     {
       // logical interruption: every saved k is a legal restart point; the plan picks one
       std::vector<int> saved;
@@ -479,6 +500,31 @@ run(const Plan& p, sim::Result& res)
             sim::fail("restart:reuse:run_failed", "continuation with the same objective function failed: %s", X.error.c_str());
           compare_files("reuse", filesR, rc::iterate_files(root + "/Y"), k, rcg.num_subiters);
           sim::probe("resume_reuse_checked");
+          return;
+        }
+      if (op.kind == "resume_same")
+        {
+          // the same reconstruction object (and objective function) runs sub-iterations 1..k, is then told to start at k+1
+          // from the saved iterate, set up again and run to the end
+          shared_ptr<ObservedRecon> recon;
+          shared_ptr<rc::objective_type> obj = rc::make_objective(pr, root + "/Z", false, rcg.subset_sens);
+          RunCfg r1 = rcg;
+          r1.num_subiters = k;
+          r1.save_interval = k;
+          RunResult first = run_process(pr, r1, root + "/Z", shared_ptr<target_type>(), std::vector<sim::Fault>(), obj, &recon);
+          if (!first.ok)
+            sim::fail("restart:same_object:first_part_failed", "%s", first.error.c_str());
+          shared_ptr<target_type> img2;
+          {
+            sim::io::Bypass b;
+            unique_ptr<target_type> up = read_from_file<target_type>(root + "/Z/out_" + std::to_string(k) + ".hv");
+            img2.reset(up.release());
+          }
+          RunResult X = run_process(pr, r2, root + "/Z", img2, std::vector<sim::Fault>(), obj, &recon);
+          if (!X.ok)
+            sim::fail("restart:same_object:run_failed", "continuation with the same reconstruction object failed: %s", X.error.c_str());
+          compare_files("same_object", filesR, rc::iterate_files(root + "/Z"), k, rcg.num_subiters);
+          sim::probe("resume_same_object_checked");
           return;
         }
       r2.reuse_sens = (op.arg(1) % 2) != 0;
@@ -611,9 +657,10 @@ gen(uint64_t seed, const std::string& tier, long idx)
   p.seed = seed;
   rc::gen_problem_cfg(p, r);
   gen_runcfg(p, r);
-  static const char* kinds[] = { "formula", "crash", "resume_fresh", "crash", "resume_default", "resume_reuse", "transparent", "crash" };
+  static const char* kinds[] = { "formula", "crash", "resume_fresh", "crash", "resume_default", "resume_reuse", "transparent", "crash",
+                                 "resume_same", "formula" };
   Op o;
-  o.kind = kinds[idx % 8];
+  o.kind = kinds[idx % 10];
   for (int j = 0; j < 3; ++j)
     o.a.push_back((long)r.below(100000));
   p.ops.push_back(o);
